@@ -36,7 +36,7 @@ def strategy(names):
             qual = ''.join(chr(33 + q) for q in draw(st.lists(st.integers(0, 51), min_size=n, max_size=n)))
             reads.append({'pre': pre, 'ins': ins, 'qual': qual})
         motif = draw(st.sampled_from(['none', 'none', 'tso', 'polyT', 'polyA', 'cs2bc', 't7', 'leadT'])) if name != 'CHICTV' else draw(st.sampled_from(['tso', 'tso', 'none']))
-        return {'strategy': name, 'bc_idx': draw(st.integers(0, 10 ** 6)), 'mismatch': draw(st.sampled_from([None, None, None, 0, 3, 7])),
+        return {'strategy': name, 'exact_prefix': draw(st.sampled_from([None, None, None, None, 0, 1, 'both'])), 'bc_idx': draw(st.integers(0, 10 ** 6)), 'mismatch': draw(st.sampled_from([None, None, None, 0, 3, 7])),
                 'hd': draw(st.sampled_from([0, 0, 1])), 'reads': reads, 'motif': motif, 'motif_pos': draw(st.integers(0, 40)),
                 'perturb': draw(st.lists(st.tuples(st.integers(0, 1), st.integers(0, 120), st.sampled_from('ACGT'), st.integers(0, 51)), min_size=3, max_size=3)),
                 'serial': draw(st.integers(1, 99999)), 'index': draw(st.integers(0, 10 ** 6))}
@@ -94,9 +94,17 @@ def materialise(case, scratch=None):
     iw = ds.index_whitelist(ip)
     index_seq = iw[case['index'] % len(iw)][0] if iw else 'ACGTAC'
     records = []
+    # a mate that is exactly as long as its layout prefix: the emitted stretch is empty
+    lay = ds.LAYOUT.get(case['strategy'])
+    quals = [r['qual'] for r in case['reads']]
+    if lay and case.get('exact_prefix') is not None:
+        for m in range(len(seqs)):
+            if case['exact_prefix'] in (m, 'both') and m < len(lay['ins']):
+                seqs[m] = seqs[m][:lay['ins'][m]]
+                quals[m] = quals[m][:lay['ins'][m]]
     for m, (sq, r) in enumerate(zip(seqs, case['reads'])):
         header = '@NS500:12:HFLOWXX:%d:1101:%d:7 %d:N:0:%s' % (1 + case['serial'] % 4, case['serial'], m + 1, index_seq)
-        records.append(FastqRecord(header, ''.join(sq), '+', r['qual']))
+        records.append(FastqRecord(header, ''.join(sq), '+', quals[m][:len(sq)]))
     return records, {'strategy': s, 'raw_bc': raw_bc, 'bc_positions': set(bc_positions), 'placement': pl, 'bp': bp,
                      'alias': pl['parts'][0][3] if pl['parts'] else None, 'index_seq': index_seq}
 
@@ -153,6 +161,17 @@ def eval_case(case):
         return out
     out.nontrivial = all(len(x['seq']) > 0 for x in snap)
     lay = ds.LAYOUT.get(name)
+    # ---------------- (0) raw / corrected barcode tags for every strategy: bc is what the harness spliced into the read,
+    # BC is a whitelist member within the expansion distance
+    if meta['raw_bc'] is not None and name not in ('DamID2andT_3u4b3u4b', 'DamID2andT_3u4b3u6b', 'DamAndT'):
+        wl_all = dict(ds.whitelist(meta['bp'], meta['alias']))
+        for sn in snap:
+            if 'bc' in sn['tags'] and sn['tags']['bc'] != meta['raw_bc']:
+                out.bad('%s:tag-bc-not-the-raw-bases' % name, 'bc tag %r, bases in the read %r (BC %r)' % (sn['tags']['bc'], meta['raw_bc'], sn['tags'].get('BC')))
+                break
+            if 'BC' in sn['tags'] and sn['tags']['BC'] not in wl_all:
+                out.bad('%s:tag-BC-not-whitelisted' % name, 'BC tag %r (raw %r)' % (sn['tags']['BC'], meta['raw_bc']))
+                break
     # ---------------- (2a) contiguity / same mate / alignment of qualities
     offsets = []
     for m, (rec, sn) in enumerate(zip(records, snap)):
@@ -268,6 +287,9 @@ def eval_case(case):
             sn2 = snapshot(t2)
             if len(sn2) != len(snap):
                 continue
+            if snap[0]['tags'].get('dt') != sn2[0]['tags'].get('dt') or set(snap[0]['tags']) != set(sn2[0]['tags']):
+                continue     # the change moved a content dependent strategy into another documented branch
+                             # (e.g. TCHIC transcriptome bleed-through detected on R1 decides the trimming of R2)
             changed_tags = {k for k in set(snap[0]['tags']) | set(sn2[0]['tags']) if snap[0]['tags'].get(k) != sn2[0]['tags'].get(k)}
             changed_emit = [i for i in range(len(snap)) if snap[i]['seq'] != sn2[i]['seq'] or snap[i]['qual'] != sn2[i]['qual']]
             if not changed_tags and not changed_emit and rec.qual[p] != newq:
